@@ -33,7 +33,7 @@ PLAN = {
     "C05": {"runs": [eng("fo", "c05", 300, 6000), eng("fo", "c01", 100, 2000), eng("fo", "dfs", 6000, 150000, budget_s={"quick": 120, "thorough": 420})]},
     "C06": {"runs": [eng("fo", "c06", 300, 6000), eng("fo", "table", 0, 0), eng("fo", "dfs", 2500, 60000, budget_s={"quick": 120, "thorough": 300})]},
     "C04": {"runs": [eng("fo", "c04", 250, 5000), eng("fo", "c01", 120, 2000), eng("fo", "dfs", 6000, 150000, budget_s={"quick": 120, "thorough": 420})]},
-    "C08": {"runs": [eng("linz", "c08", 1500, 40000), eng("linz", "c08cleanup", 300, 6000)],
+    "C08": {"runs": [eng("linz", "c08", 1500, 40000), eng("linz", "c08cleanup", 300, 6000), eng("linz", "c18del", 800, 8000)],
             "trusted_extra": ["sync.RWMutex / sync.Map provide mutual exclusion and linearizable single-key operations; Go map iteration yields every entry present during the whole iteration exactly once",
                               "implementation coverage is statistical: the Go scheduler is not steered inside the backends"]},
     "C16": {"runs": [dict(engine="race", profile="c16", n={"quick": 1, "thorough": 1}, race=True, timeout={"quick": 900, "thorough": 3000})],
@@ -51,7 +51,7 @@ PLAN = {
     "C09": {"runs": [seq("c09", 200, 4000), eng("fo", "c04", 150, 3000), eng("inval", "c15", 100, 1000)]},
     "C10": {"runs": [seq("c10", 200, 5000), eng("fo", "c06", 120, 2000), seq("c11", 120, 1500)],
             "trusted_extra": ["float64 evaluation of the jitter product is idealised by exact rationals; the correspondence allows |T|*2^-40+1 ns slack"]},
-    "C11": {"runs": [seq("c11", 200, 3000), eng("xfer", "c13", 40, 400), eng("linz", "c08cleanup", 800, 8000), eng("conserve", "c11all", 300, 4000)]},
+    "C11": {"runs": [seq("c11", 200, 3000), eng("xfer", "c13", 150, 1500), eng("linz", "c08cleanup", 800, 8000), eng("conserve", "c11all", 300, 4000)]},
     "C12": {"runs": [seq("c12", 200, 3000)],
             "trusted_extra": ["float64 evaluation of n*frac is idealised by exact rationals; one entry of slack only within 2^-20 of an integer"]},
     "C18": {"runs": [seq("c07", 150, 3000), seq("c12", 80, 1000), eng("fo", "c02", 150, 3000), eng("linz", "c08", 600, 20000), eng("linz", "c18del", 800, 8000), eng("conserve", "c18all", 200, 4000)]},
